@@ -111,6 +111,12 @@ type Reporter struct {
 
 func NewReporter(prop string) *Reporter {
 	r := &Reporter{Property: prop, knownHit: map[string]int{}, seenKeys: map[string]bool{}}
+	// stale replay files of earlier runs of this property are removed: replays/ mirrors THIS run
+	if old, err := filepath.Glob(filepath.Join(OutDir(), "evidence", "replays", prop+"-*.json")); err == nil {
+		for _, f := range old {
+			_ = os.Remove(f)
+		}
+	}
 	for _, k := range LoadKnownFindings() {
 		if k.Property == prop && k.Status == "open" {
 			r.known = append(r.known, k)
